@@ -148,6 +148,9 @@ func (u *Unit) dynCall(st *State, instr ssa.Instruction, common *ssa.CallCommon,
 		return nil, false
 	}
 	allPure := true
+	allHaveMods := true
+	anyMods := false
+	var modLocs []frameLoc
 	var keep []string
 	first := true
 	for _, f := range targets {
@@ -190,8 +193,42 @@ func (u *Unit) dynCall(st *State, instr ssa.Instruction, common *ssa.CallCommon,
 				u.note(fmt.Sprintf("%s: precondition %q of possible call target %s mentions state not visible at the call through a function value; not checked there", u.key, r.Text, name))
 			}
 		}
+		if !c.Pure && c.HasModifies {
+			// a target with a declared frame: its locations, evaluated over the arguments
+			allHaveMods = allHaveMods && true
+			ctx := &EvalCtx{u: u, st: st, bound: map[string]bool{}, vars: map[string]Term{}}
+			ctx.pkg = calleePkg(f)
+			for j := range args {
+				if j+off < len(c.Params) {
+					a := args[j]
+					a.T = f.Params[j+off].Type()
+					ctx.vars[c.Params[j+off]] = a
+				}
+			}
+			ok := func() (ok bool) {
+				defer func() {
+					if rec := recover(); rec != nil {
+						if _, isEval := rec.(evalErr); isEval {
+							ok = false
+							return
+						}
+						panic(rec)
+					}
+				}()
+				for _, m := range c.Modifies {
+					modLocs = append(modLocs, ctx.lvalues(m.Text)...)
+				}
+				return true
+			}()
+			if !ok {
+				allHaveMods = false
+			}
+			anyMods = true
+			continue
+		}
 		if !c.Pure {
 			allPure = false
+			allHaveMods = false
 			if len(c.Preserves) > 0 && !c.HasModifies {
 				if first {
 					keep = append([]string(nil), c.Preserves...)
@@ -212,7 +249,11 @@ func (u *Unit) dynCall(st *State, instr ssa.Instruction, common *ssa.CallCommon,
 			first = false
 		}
 	}
-	if !allPure {
+	if allPure && anyMods && allHaveMods {
+		for _, l := range modLocs {
+			u.havocLoc(st, l, instr.Pos(), "function value")
+		}
+	} else if !allPure || anyMods {
 		u.frameCallAll(st, instr.Pos(), "function value")
 		if len(keep) > 0 {
 			u.havocAllExcept(st, keep)
